@@ -119,7 +119,7 @@ func typeIsUnpacker(t reflect.Type) (reflect.Value, bool) {
 func implementsUnpacker(t reflect.Type) bool {
 	// ucfg.Config or structures that can be casted to ucfg.Config are not
 	// Unpackers.
-	if tConfig.ConvertibleTo(chaseTypePointers(t)) {
+	if bt := chaseTypePointers(t); bt.Kind() != reflect.Interface && tConfig.ConvertibleTo(bt) {
 		return false
 	}
 
